@@ -23,6 +23,7 @@ type Env struct {
 	pkg      *types.Package
 	depth    int
 	callStack []string
+	bound    map[string]bool // names bound by quantifiers / let / spec-function parameters (never program variables)
 }
 
 func (e *Env) clone() *Env {
@@ -148,6 +149,10 @@ func (v *Verifier) evalSpec(env *Env, e SExpr) Val {
 	case *SLet:
 		val := v.evalSpec(env, x.Val)
 		ne := env.clone()
+		ne.bound = map[string]bool{x.Name: true}
+		for k := range env.bound {
+			ne.bound[k] = true
+		}
 		ne.vars[x.Name] = val
 		return v.evalSpec(ne, x.Body)
 	case *SUnary:
@@ -202,6 +207,13 @@ func (v *Verifier) evalSpec(env *Env, e SExpr) Val {
 		return v.evalCall(env, x)
 	case *SQuant:
 		ne := env.clone()
+		ne.bound = map[string]bool{}
+		for k := range env.bound {
+			ne.bound[k] = true
+		}
+		for _, b := range x.Vars {
+			ne.bound[b.Name] = true
+		}
 		var binders []string
 		var ranges []Term
 		for _, b := range x.Vars {
@@ -270,6 +282,12 @@ func (v *Verifier) isLocalName(env *Env, name string) bool {
 
 func (v *Verifier) evalIdent(env *Env, name string) Val {
 	if val, ok := env.vars[name]; ok {
+		// inside a loop invariant a reassigned parameter denotes its current value (old(x) gives the entry value)
+		if env.fr != nil && env.at != nil && !env.bound[name] {
+			if lv, ok := v.localName(env, name); ok {
+				return lv
+			}
+		}
 		return val
 	}
 	// local variables of the frame (loop invariants)
@@ -492,6 +510,15 @@ func (v *Verifier) frameFor(env *Env) *Frame {
 
 func (v *Verifier) specField(env *Env, base Val, name string) Val {
 	fr := v.frameFor(env)
+	if strings.HasPrefix(name, "$") && base.K == KRef {
+		l, t := v.ghostFieldLoc(env, base, name)
+		if _, isArr := t.Underlying().(*types.Array); isArr {
+			// ghost array field: a sequence stored with the object (addressed by a derived reference)
+			pt := base.T.Underlying().(*types.Pointer).Elem()
+			return Val{K: KArr, T: types.NewPointer(t), A: v.derivedRef(base.A, pt, name)}
+		}
+		return fr.loadLocQuiet(env.cur, l, t)
+	}
 	switch base.K {
 	case KRef:
 		pt := base.T.Underlying().(*types.Pointer).Elem()
@@ -742,6 +769,7 @@ func (v *Verifier) evalCall(env *Env, x *SCall) Val {
 		}
 		ne := env.clone()
 		ne.cur = env.old
+		ne.at = nil
 		return v.evalSpec(ne, x.Args[0])
 	case "len":
 		a := v.evalSpec(env, x.Args[0])
@@ -904,6 +932,7 @@ func (v *Verifier) applySpecFunc(env *Env, sf *SpecFunc, args []SExpr) Val {
 	}
 	ne := &Env{fr: env.fr, vars: map[string]Val{}, cur: env.cur, old: env.old, pkg: sfPkg, depth: env.depth + 1,
 		callStack: append(append([]string{}, env.callStack...), sf.PkgName+"."+sf.Name)}
+	// inside a spec function every name is a parameter of that function: never resolve to program variables
 	for i, p := range sf.Params {
 		ne.vars[p.Name] = avals[i]
 	}
@@ -1030,4 +1059,16 @@ func (v *Verifier) bitAxioms() {
 	c.assert("(forall ((x! Int) (j! Int) (k! Int)) (! (=> (and (<= 0 k!) (< k! 64) (<= 0 j!) (< j! 64) (not (= j! k!)) (<= 0 x!)) (= (band (bor x! (pow2 j!)) (pow2 k!)) (band x! (pow2 k!)))) :pattern ((band (bor x! (pow2 j!)) (pow2 k!)))))", "other bits kept")
 	c.assert("(forall ((y! Int)) (! (= (band 0 y!) 0) :pattern ((band 0 y!))))", "zero word")
 	c.assert("(forall ((x! Int) (y! Int)) (! (=> (and (<= 0 x!) (<= 0 y!) (< x! 18446744073709551616) (< y! 18446744073709551616)) (and (<= 0 (bor x! y!)) (< (bor x! y!) 18446744073709551616) (<= 0 (band x! y!)) (<= (band x! y!) x!))) :pattern ((bor x! y!))))", "word range")
+}
+
+// ghostFieldLoc: location of a declared ghost field ($name) of an object.
+func (v *Verifier) ghostFieldLoc(env *Env, base Val, name string) (*Loc, types.Type) {
+	pt := base.T.Underlying().(*types.Pointer).Elem()
+	tn := typeName(pt)
+	gf := v.contracts.GhostFields[tn+"."+name]
+	if gf == nil {
+		encFail("spec: ghost field %s.%s is not declared", tn, name)
+	}
+	gt := v.resolveType(v.pkgByName(env.pkg, gf.Pkg), gf.Type)
+	return &Loc{Comp: "H:" + tn + "." + name, Ref: base.A, T: gt}, gt
 }
